@@ -9,7 +9,7 @@
 From Coq Require Import String List ZArith NArith Bool.
 Import ListNotations.
 From Selfies Require Import Base Generated Atoms Grammar Decoder PySet Matching Smiles Kekulize Encoder
-  IndexSpec IndexCode Reader RoundTrip EncoderFacts PureFacts EncArom EncMatch EncKeep.
+  IndexSpec IndexCode Reader RoundTrip EncoderFacts PureFacts EncArom EncMatch EncKeep EncPi.
 Local Open Scope string_scope.
 
 Definition C05_matching_sound_statement : Prop :=
@@ -65,6 +65,32 @@ Theorem C05_kekulize_changes_only_aromatic_bond_orders : forall smiles attributa
       (e_order2 e' = e_order2 e0 \/ (e_order2 e0 = 3 /\ (e_order2 e' = 2 \/ e_order2 e' = 4)))%Z.
 Proof. exact parsed_kekulize_keeps. Qed.
 
+(* where the double bonds go, relative to kekulize's own pruning decision (kept = the atoms _prune_from_ds does not
+   drop: "needs a pi bond"): (1) every kept atom ends with a double bond (has4: a stored edge of order 2 between the two
+   atoms) to another kept atom along a bond that was aromatic in the reader's graph (edge3: order 1.5); (2) at an atom
+   that is not kept nothing is raised: every bond there keeps its order, except that an aromatic one becomes single.
+   Not claimed: that a kept atom gets exactly ONE double bond - that is what fails on the blossom witness. *)
+Theorem C05_double_bonds_follow_the_pruning : forall smiles attributable m0 m1,
+  smiles_to_mol smiles attributable = Ok m0 -> kekulize m0 = Ok (Some m1) ->
+  exists kept, (ds_is_empty (m_ds m0) = false -> kept_nodes_of m0 (ds_keys (m_ds m0)) = Ok kept) /\
+    (forall k, In k kept -> exists k', In k' kept /\ edge3 m0 k k' /\ has4 m1 k k') /\
+    (forall p, ~ In p kept -> forall j row' e', nth_error (m_adj m1) j = Some row' -> In (Some e') row' -> j = p \/ e_dst e' = p ->
+       exists row0 e0, nth_error (m_adj m0) j = Some row0 /\ In (Some e0) row0 /\ e_dst e' = e_dst e0 /\
+         (e_order2 e' = e_order2 e0 \/ (e_order2 e0 = 3 /\ e_order2 e' = 2))%Z).
+Proof. exact parsed_kekulize_pi. Qed.
+
+(* pyrrole: the four carbons are kept and end with a double bond each; the [nH] is dropped and keeps two single bonds *)
+Example C05_pi_example :
+  match smiles_to_mol (lit "c1cc[nH]c1") false with
+  | Ok m0 => match kept_nodes_of m0 (ds_keys (m_ds m0)), kekulize m0 with
+             | Ok kept, Ok (Some m1) =>
+                 match kept with [0; 1; 2; 4]%nat => true | _ => false end &&
+                 forallb (fun row => forallb (fun oe => match oe with Some e => negb (Nat.eqb (e_dst e) 3) || (e_order2 e =? 2)%Z | None => true end) row) (m_adj m1) &&
+                 match nth_error (m_adj m1) 3 with Some row => forallb (fun oe => match oe with Some e => (e_order2 e =? 2)%Z | None => true end) row | None => false end
+             | _, _ => false end
+  | Err _ => false end = true.
+Proof. vm_compute. reflexivity. Qed.
+
 Example C05_kekulize_example :
   match smiles_to_mol (lit "c1ccc2[nH]ccc2c1") false with
   | Ok m0 => existsb (fun p => a_aromatic (fst p)) (m_atoms m0) &&
@@ -79,3 +105,4 @@ Print Assumptions C05_checker_sound.
 Print Assumptions C05_kekulize_clears_every_aromatic_atom.
 Print Assumptions C05_returned_matching_covers_along_edges_partial.
 Print Assumptions C05_kekulize_changes_only_aromatic_bond_orders.
+Print Assumptions C05_double_bonds_follow_the_pruning.
